@@ -57,8 +57,8 @@ def run_task(task):
         try:
             if warm:
                 H.clear_process_caches()
-                H.run_history(w, mode, names, check=check, clear=False, pset=pset)   # the twin warms the caches
-                fails, info = H.run_history(w, mode, names, check=check, clear=False, pset=pset)
+                H.run_history(w, mode, names, check=check, clear=False, pset=pset, warm=True)   # the twin warms the caches
+                fails, info = H.run_history(w, mode, names, check=check, clear=False, pset=pset, warm=True)
             else:
                 fails, info = H.run_history(w, mode, names, check=check, check_id=check_id, pset=pset)
         except Exception as e:       # driver problem, not a finding
